@@ -170,8 +170,13 @@ def workload(ctx, lentil):
         p = int(rng.choice([2, 4]))
         w = float(rng.uniform(0.12, 0.2))
         # "to interpolation accuracy" presupposes an aperture that is still resolved after the rescale: a 1/e radius of at
-        # least 2.5 samples of the coarser of the two grids
-        w = min(0.22, max(w, 2.5 / (min(n) * min(s, 1.0))))
+        # least 3 samples of the coarser of the two grids (at 2.5 the complex image of a 24-sample plane halved to 12 samples sits
+        # right on the 4 % tolerance: seed 17 of the final sweep, 4.1 %, before and after every repair of rescale) - the array is
+        # enlarged where the widest aperture that fits would be coarser than that
+        nmin = int(np.ceil(3.0 / (0.22 * min(s, 1.0))))
+        if min(n) < nmin:
+            n = tuple(max(v, nmin) for v in n)
+        w = min(0.22, max(w, 3.0 / (min(n) * min(s, 1.0))))
         base = supergauss(n, w, p, rng.uniform(-2, 2), rng.uniform(-2, 2)) * float(rng.uniform(0.5, 2))
         amp = base
         ii, jj = np.indices(n)
